@@ -38,7 +38,6 @@ ASSUMPTIONS = ['SQLite file database opened with timeout=0, so file-lock conflic
                'other backends (PostgreSQL/MySQL/Oracle pools) cannot be run in this sandbox']
 SHARDS = {'quick': 4, 'thorough': 16}
 MIN_EVALS = {'quick': 3000, 'thorough': 12000}
-EXHAUSTIVE = {'quick': False, 'thorough': False}
 CLASS_FLOORS = {'nontrivial': 0.15, 'part:schedule': 0.05}
 EXCLUSIONS = {}
 
